@@ -502,7 +502,7 @@ def structural_pairs():
 def build_cases(prop, tier, rng):
     """returns list of (label, [Case], dbg)"""
     q = tier == "quick"
-    fams_all = ["g1", "g2", "g3", "g4", "g12", "g13", "g14", "g2", "g10", "g11", "g1", "g12", "g13", "g15", "g18", "g19"]
+    fams_all = ["g1", "g2", "g3", "g4", "g12", "g13", "g14", "g2", "g10", "g11", "g1", "g12", "g13", "g15", "g18", "g19", "g21"]
     out = []
     if prop in ("C01", "C02", "C04"):
         n = 300 if q else 7200
@@ -527,7 +527,7 @@ def build_cases(prop, tier, rng):
         out.append(("c05", plans.plan_c05(rng, corpus_pairs(150) + structural_pairs() + gen_pairs(rng, fams_all, n)), False))
     elif prop == "C06":
         n = 60 if q else 1500
-        out.append(("c06", plans.plan_c06(rng, corpus_pairs(80) + gen_pairs(rng, fams_all, n)), False))
+        out.append(("c06", plans.plan_c06(rng, corpus_pairs(80) + gen_pairs(rng, fams_all, n) + gen_pairs(rng, ["g21"], 2 * n)), False))
     elif prop == "C07":
         n = 60 if q else 1500
         pp = [("g1",) + plans.single_poly_pairs(rng, "g1") for _ in range(n // 3)]
